@@ -362,7 +362,48 @@ def _relf(A, B):
     return float(np.linalg.norm(a - b) / max(np.linalg.norm(b), 1e-300))
 
 
-CHECKERS = {'layout': check_layout, 'skip': check_skip, 'func': check_func}
+def check_func_prune(c):
+    """Functional ALS with mode-size pruning switched on (thr_pow > 0): the core updated last must still be the exact
+    minimiser of the objective over the basis functions it kept."""
+    res = Res()
+    seed = c.get('seed', 0)
+    d, n = c['d'], c['n']
+    g = np.linspace(-0.93, 0.89, c['pts'])
+    X = np.array(list(itertools.product(*[g + 0.013 * k for k in range(d)])))
+    cheb = np.polynomial.chebyshev
+    y = (1 + X[:, 0]) * (1 + 0.5 * X[:, 1]) + 0.3 * X[:, -1]
+    for k in range(d):
+        cf = np.zeros(n)
+        cf[n - 1] = c['weak']
+        y = y + (k + 1) * cheb.chebval(X[:, k], cf)
+    for (rk, lamb, thr) in c['configs']:
+        A0 = space.tt([n] * d, [1] + list(rk) + [1], 'gen', seed, tag=45)
+        for N in (1, 2, 3):
+            res.ev()
+            cfg = dict(c, configs=[[list(rk), lamb, thr]], N=N)
+            info = {}
+            with warnings.catch_warnings():
+                warnings.simplefilter('ignore')
+                A = teneva.als_func(X, y, A0, -1., 1., nswp=N, e=None, info=info, lamb=lamb, thr_pow=thr)
+            res.tr()
+            res.state(digest(ref.core_bytes(A)))
+            okw = ref.wellformed(A) is None and ref.finite(A) and all(1 <= G.shape[1] <= n for G in A) and \
+                [G.shape[2] for G in A[:-1]] == list(rk)
+            if not res.check(okw, 'prune.shape', cfg, lambda: 'core shapes %s' % ([G.shape for G in A],), ['prune']):
+                continue
+            res.check(info.get('nswp') == N and info.get('stop') == 'nswp', 'prune.info', cfg, lambda: repr(info), ['prune'])
+            gcore, sc = fgrad_core1(A, X, y, lamb)
+            res.check(np.abs(gcore).max() <= 1e-7 * sc, 'prune.optimal', cfg,
+                      lambda: 'mode sizes %s: gradient w.r.t. the last-updated core %.3e (scale %.3e) after %d sweeps' % (
+                          [G.shape[1] for G in A], np.abs(gcore).max(), sc, N), ['prune', 'optimal'])
+            pruned = any(G.shape[1] < n for G in A)
+            res.outcome('pruned' if pruned else 'full')
+            if pruned:
+                res.nt((d, n, c['pts'], c['weak'], tuple(rk), lamb, thr, N))
+    return res
+
+
+CHECKERS = {'layout': check_layout, 'skip': check_skip, 'func': check_func, 'func_prune': check_func_prune}
 
 
 def multisets(shape, M, cover=True):
@@ -419,4 +460,8 @@ def strata(tier, seed):
                     fl.append(dict(shape=shape, points=ms, where=where, n=n, N=3,
                                    configs=[[1, 1e-3], [2, 0.1]] if tier == 'quick' else
                                    [[r0, lamb] for r0 in (1, 2, 3) for lamb in (1e-3, 0.1, 10.0)], seed=seed))
+    pr = [dict(d=d, n=n, pts=pts, weak=weak, seed=seed,
+               configs=[[rk, lamb, thr] for rk in ([[2] * (d - 1), [2] + [1] * (d - 2)] if d > 2 else [[2], [1]]) for lamb in (1e-3, 1e-6) for thr in (5e-2, 0.3, 1e-3)])
+          for d in (2, 3) for n in (4, 5) for pts in (4, 5) for weak in (1e-2, 1e-4, 0.2)]
+    yield Stratum('als_func with mode-size pruning', pr, 'func_prune', size=len(pr), chunk=1, bounds={'thr_pow': [1e-3, 5e-2, 0.3]})
     yield Stratum('als_func-layouts', fl, 'func', size=len(fl), chunk=4, bounds={'n': [2, 4], 'points': ['nodes', 'off-node']})
